@@ -166,29 +166,10 @@ impl vstd::std_specs::convert::FromSpecImpl<ExtensionFunctionLookupError> for Ev
 }
 impl From<ExtensionFunctionLookupError> for EvaluationError { #[verifier::external_body] fn from(v: ExtensionFunctionLookupError) -> (r: EvaluationError) { unimplemented!() } }
 
-// ---- expression constructors used for residuals (shape = what the AST builder produces; assumed) ----
+// ---- expression accessors ----
 impl Expr {
     #[verifier::external_body] pub fn source_loc(&self) -> (r: Option<&Loc>) ensures r == (match self.source_loc { Some(l) => Some(&l), None => None }) { unimplemented!() }
     #[verifier::external_body] pub fn expr_kind(&self) -> (r: &ExprKind) ensures *r == self.expr_kind { unimplemented!() }
-    #[verifier::external_body] pub fn and(e1: Expr, e2: Expr) -> (r: Expr) ensures r.expr_kind == (ExprKind::And { left: Arc::new(e1), right: Arc::new(e2) }) { unimplemented!() }
-    #[verifier::external_body] pub fn or(e1: Expr, e2: Expr) -> (r: Expr) ensures r.expr_kind == (ExprKind::Or { left: Arc::new(e1), right: Arc::new(e2) }) { unimplemented!() }
-    #[verifier::external_body] pub fn val_bool(v: bool) -> (r: Expr) ensures r.expr_kind == ExprKind::<()>::Lit(Literal::Bool(v)) { unimplemented!() }
-    #[verifier::external_body] pub fn val_str(v: SmolStr) -> (r: Expr) ensures r.expr_kind == ExprKind::<()>::Lit(Literal::String(v)) { unimplemented!() }
-    #[verifier::external_body] pub fn unary_app(op: UnaryOp, e: Expr) -> (r: Expr) ensures r.expr_kind == (ExprKind::UnaryApp { op, arg: Arc::new(e) }) { unimplemented!() }
-    #[verifier::external_body] pub fn binary_app(op: BinaryOp, e1: Expr, e2: Expr) -> (r: Expr) ensures r.expr_kind == (ExprKind::BinaryApp { op, arg1: Arc::new(e1), arg2: Arc::new(e2) }) { unimplemented!() }
-    #[verifier::external_body] pub fn get_tag(e1: Expr, e2: Expr) -> (r: Expr) ensures r.expr_kind == (ExprKind::BinaryApp { op: BinaryOp::GetTag, arg1: Arc::new(e1), arg2: Arc::new(e2) }) { unimplemented!() }
-    #[verifier::external_body] pub fn has_tag(e1: Expr, e2: Expr) -> (r: Expr) ensures r.expr_kind == (ExprKind::BinaryApp { op: BinaryOp::HasTag, arg1: Arc::new(e1), arg2: Arc::new(e2) }) { unimplemented!() }
-    #[verifier::external_body] pub fn call_extension_fn(n: Name, args: Vec<Expr>) -> (r: Expr) ensures r.expr_kind == (ExprKind::ExtensionFunctionApp { fn_name: n, args: Arc::new(args) }) { unimplemented!() }
-    #[verifier::external_body] pub fn has_attr(e: Expr, a: SmolStr) -> (r: Expr) ensures r.expr_kind == (ExprKind::HasAttr { expr: Arc::new(e), attr: a }) { unimplemented!() }
-    #[verifier::external_body] pub fn get_attr(e: Expr, a: SmolStr) -> (r: Expr) ensures r.expr_kind == (ExprKind::GetAttr { expr: Arc::new(e), attr: a }) { unimplemented!() }
-    #[verifier::external_body] pub fn like(e: Expr, p: Pattern) -> (r: Expr) ensures r.expr_kind == (ExprKind::Like { expr: Arc::new(e), pattern: p }) { unimplemented!() }
-    #[verifier::external_body] pub fn is_entity_type(e: Expr, t: EntityType) -> (r: Expr) ensures r.expr_kind == (ExprKind::Is { expr: Arc::new(e), entity_type: t }) { unimplemented!() }
-    #[verifier::external_body] pub fn set(es: VxIter<Expr>) -> (r: Expr) ensures r.expr_kind is Set && r.expr_kind->Set_0@ == es.items() { unimplemented!() }
-    #[verifier::external_body] pub fn record(es: VxIter<(SmolStr, Expr)>) -> (r: std::result::Result<Expr, ExpressionConstructionError>)
-        ensures (forall|i: int, j: int| 0 <= i < j < es.items().len() ==> es.items()[i].0 != es.items()[j].0) ==> r is Ok { unimplemented!() }
-    #[verifier::external_body] pub fn record_arc(m: Arc<BTreeMap<SmolStr, Expr>>) -> (r: Expr) ensures r.expr_kind == ExprKind::<()>::Record(m) { unimplemented!() }
-    #[verifier::external_body] pub fn ite_arc(a: Arc<Expr>, b: Arc<Expr>, c: Arc<Expr>) -> (r: Expr) ensures r.expr_kind == (ExprKind::If { test_expr: a, then_expr: b, else_expr: c }) { unimplemented!() }
-    #[verifier::external_body] pub fn unknown(u: Unknown) -> (r: Expr) ensures r.expr_kind == ExprKind::<()>::Unknown(u) { unimplemented!() }
     /// "guaranteed never to error on evaluation" (ast/expr.rs; not verified)
     pub uninterp spec fn spec_projectable(&self) -> bool;
     #[verifier::external_body] pub fn is_projectable(&self) -> (r: bool) ensures r == self.spec_projectable() { unimplemented!() }
